@@ -36,6 +36,10 @@ NEVER = ("never",)
 
 IDENTITY_METHODS = {"clone", "as_ref", "as_mut", "borrow", "borrow_mut", "to_owned", "as_str", "as_slice",
                     "as_deref", "by_ref", "as_mut_str", "into_boxed_str", "cloned", "copied"}
+# methods of std collections / strings that take `&self`: calling them through a `&mut` binding changes nothing
+READONLY_METHODS = {"contains_key", "get", "len", "is_empty", "iter", "keys", "values", "contains", "first", "last", "get_key_value", "starts_with", "ends_with",
+                    "to_string", "as_str", "clone", "to_owned", "is_some", "is_none", "is_ok", "is_err", "as_ref", "eq", "ne", "cmp", "to_vec", "binary_search",
+                    "chars", "bytes", "split", "trim", "find", "capacity", "is_subset", "is_superset", "is_disjoint", "union", "intersection", "difference"}
 STRINGY = ("&str", "std::string::String", "&std::string::String", "&mut std::string::String", "&&str")
 IDENTITY_FNS = ("std::boxed::Box::<T>::new", "std::convert::From::from", "std::convert::Into::into",
                 "std::clone::Clone::clone", "std::borrow::ToOwned::to_owned", "std::convert::AsRef::as_ref")
@@ -613,6 +617,8 @@ class Evaluator:
         self.mut_params = {}
         self.mut_exits = {}
         self.closure_tries = []
+        self._const_depth = 0
+        self.closure_rets = []
         self._cont_conds = {}
         self.pc = []              # path condition stack
         self._pc_marks = []
@@ -735,10 +741,15 @@ class Evaluator:
                 self._bind(s, mk_proj(term, v, idx), env)
         elif k == "pstruct":
             v = p.get("ctor_of") or p.get("def")
+            plain_struct = not p.get("ctor_of") and isinstance(v, str) and v in getattr(self.prog, "adts", {}) and \
+                self.prog.adts[v].get("kind") == "struct"
             for f in p["fields"]:
                 nm = f["name"]
                 idx = int(nm) if nm.isdigit() else nm
-                self._bind(f["pat"], mk_proj(term, v, idx), env)
+                if plain_struct and not nm.isdigit():
+                    self._bind(f["pat"], mk_field(term, nm), env)        # destructuring a struct is field access
+                else:
+                    self._bind(f["pat"], mk_proj(term, v, idx), env)
         elif k == "ptup":
             for i, s in enumerate(p["subs"]):
                 self._bind(s, mk_tproj(term, i), env)
@@ -1131,8 +1142,13 @@ class Evaluator:
         self.closure_stack.append(cid)
         self._pc_push(("closure", cid))
         self.closure_tries.append([])
+        self.closure_rets.append([])
         v = self.expr(node["body"])
         tries = self.closure_tries.pop()
+        rets = self.closure_rets.pop()
+        # early `return x` inside the closure: taken under its own condition, before the value of the body
+        for rv, rc in reversed(rets):
+            v = rv if (rc is None or v == NEVER) else ("ite", rc, rv, v)
         # a `?` inside the closure makes the closure return None / Err(e) at that point
         import norm as _norm
         for tv, is_res in reversed(tries):
@@ -1265,9 +1281,9 @@ class Evaluator:
             is_mut = False
             if an.get("k") == "ref" and an.get("mut"):
                 is_mut = True
-            elif kind == "mcall" and i == 0 and str(n.get("rty", "")).startswith("&mut"):
+            elif kind == "mcall" and i == 0 and str(n.get("rty", "")).startswith("&mut") and name not in READONLY_METHODS:
                 is_mut = True
-            elif str(an.get("ty", "")).startswith("&mut") and an.get("k") == "path":
+            elif str(an.get("ty", "")).startswith("&mut") and an.get("k") == "path" and not (kind == "mcall" and i == 0 and name in READONLY_METHODS):
                 is_mut = True
             if is_mut:
                 r = self.root_local(an)
@@ -1432,6 +1448,15 @@ class Evaluator:
         if r == "def":
             if str(n.get("dk", "")).startswith("Ctor"):
                 return ("ctor", n.get("ctor_of"), ())
+            if n.get("const_init") is not None and self._const_depth < 4:
+                # a local constant: its initialiser (tables of literals)
+                self._const_depth += 1
+                try:
+                    v = self.expr(n["const_init"])
+                finally:
+                    self._const_depth -= 1
+                if isinstance(v, tuple) and v and v[0] in ("array", "vec", "lit", "tuple", "ctor"):
+                    return v
             return ("def", n.get("def"))
         if r == "self":
             return ("def", n.get("def"))
@@ -1611,7 +1636,16 @@ class Evaluator:
         if self.st is None:
             return NEVER
         if self.closure_stack:
-            # return from a closure body: not a function exit
+            # return from a closure body: not a function exit, but one of the values of the closure
+            if self.closure_rets:
+                since = []
+                seen = False
+                for c in self.pc:
+                    if c[0] == "closure" and c[1] == self.closure_stack[-1]:
+                        seen, since = True, []
+                    elif seen:
+                        since.append(c)
+                self.closure_rets[-1].append((v, pc_term(since)))
             self.st = None
             return NEVER
         self._site(node=n, kind="return", name="return", args=[v], argnodes=[n.get("e")])
@@ -1697,6 +1731,7 @@ class Evaluator:
         # the rest of the enclosing block is only reached when the value was Ok / Some
         import norm
         self.pc.append(("if", ("matches", v, norm.OK_DESC if is_res else norm.SOME_DESC), True, n["id"], "try"))
+        self._learn(("matches", v, norm.OK_DESC if is_res else norm.SOME_DESC), True)
         return mk_proj(v, "std::result::Result::Ok" if is_res else "std::option::Option::Some", 0)
 
     def e_become(self, n):
